@@ -289,6 +289,45 @@ def run(run):
                       message=f"HSM2ProtocolInterrupt (raised after a PIN change attempt) cannot leave {pc.name}.{mname} (it escapes with {sorted(esc_m)}): "
                               "a PIN change carried out during a reconnection would not stop the manager, which keeps serving")
 
+    # ... and on EVERY way: no call from which the interrupt can come is placed under a handler that keeps the manager going
+    from .c11 import _parents, catching_handler
+    INT = "HSM2ProtocolInterrupt"
+    n_sites = 0
+    for fn_, sc_ in manager_reachable(run):
+        if isinstance(fn_.node, ast.Lambda):
+            continue
+        par = None
+        for call, cs in A.callees(fn_, sc_):
+            srcs = [c for c in cs if c.fn is not None and INT in E.esc(c.fn, c.self_cls if c.self_cls is not None else None)]
+            if not srcs:
+                continue
+            n_sites += 1
+            par = par if par is not None else _parents(fn_.node)
+            tr, h = catching_handler(E, par, call, fn_, sc_, INT)
+            if h is None:
+                continue
+            gf_ = A.cfg(fn_, sc_)
+            last = h.body[-1] if h.body else None
+            reraises = isinstance(last, ast.Raise) and (last.exc is None or (isinstance(last.exc, ast.Call) and norm(last.exc.func) in (INT, "RequestHandlerShutdown"))
+                                                         or (isinstance(last.exc, ast.Name) and h.name == last.exc.id))
+            # a handler that ends the run: from it no further protocol call / serving is reachable
+            ends = False
+            if not reraises:
+                hn = [n for n in gf_.nodes if n.kind == "handler" and n.ast is h]
+                after = set()
+                for n in hn:
+                    after |= gf_.reachable(n)
+                again = [n for n in after if n.ast is not None and n.kind == "stmt" and any(
+                    isinstance(x, ast.Call) and call_name(x) in ("initialize_device", "serve_forever", "handle_request", "ensure_connection", "handle")
+                    for x in ast.walk(n.ast))]
+                ends = bool(hn) and not again and fn_.qualname.endswith("TCPServer.run")
+            run.check("R5", reraises or ends, f"{fn_.qualname}: the handler over `{norm(call.func)[:40]}` lets the stop signal end the manager",
+                      key=f"{fn_.qualname}|interrupt-caught|{norm(call.func)[:40]}", where=fn_.loc(h),
+                      message=f"in {fn_.qualname} the call `{norm(call)[:50]}` can raise HSM2ProtocolInterrupt (the manager must stop after a PIN change attempt) "
+                              f"but sits under `except {norm(h.type) if h.type is not None else ''}`, which neither re-raises it nor ends the run: the manager "
+                              "carries on (retries the bring-up / answers the request) with a PIN state it must not use")
+    run.floor("R5", "call sites from which the stop signal can come", n_sites, 3)
+
     # ---------------------------------------------------------------- R6
     run.rule("R6", "Typestate: once the device acknowledged the new PIN (true edge of new_pin), no path "
              "may reach a statement that discards the only copy of it (abort_change: _new_pin = None) "
